@@ -94,7 +94,8 @@ _public_ int m_mod_set_batch_size(m_mod_t *mod, size_t len) {
     M_MOD_ASSERT(mod);
     M_MOD_CONSUME_TOKEN(mod);
     
-    mod->batch.len = len;
+    /* With a batch timeout in force, "no batch size" means that only the timeout delivers */
+    mod->batch.len = (len == 0 && mod->batch.timer.ns != 0) ? SIZE_MAX : len;
     return 0;
 }
 
